@@ -154,6 +154,10 @@ fn check_rejected(text: &str, tk: TableKind, describe: &dyn Fn() -> serde_json::
             ("DeepEx<f64>::parse", Box::new(|| DeepEx::<f64>::parse(text).is_ok())),
             ("exmex::parse<f32>", Box::new(|| exmex::parse::<f32>(text).is_ok())),
             ("eval_str<f64>", Box::new(|| exmex::eval_str::<f64>(text).is_ok())),
+            (
+                "line_2_statement<f64>",
+                Box::new(|| exmex::statements::line_2_statement::<f64, exmex::FloatOpsFactory<f64>, exmex::NumberMatcher>(text).is_ok()),
+            ),
         ],
         TableKind::Val => vec![
             ("parse_val<i32,f64>", Box::new(|| exmex::parse_val::<i32, f64>(text).is_ok())),
@@ -161,9 +165,15 @@ fn check_rejected(text: &str, tk: TableKind, describe: &dyn Fn() -> serde_json::
                 "DeepEx<Val>::parse",
                 Box::new(|| DeepEx::<exmex::Val<i32, f64>, exmex::ValOpsFactory<i32, f64>, exmex::ValMatcher>::parse(text).is_ok()),
             ),
+            ("line_2_statement_val", Box::new(|| exmex::line_2_statement_val::<i32, f64>(text).is_ok())),
         ],
     };
     for (entry, f) in entries {
+        // a statement line with '=' is `lhs = expression`: only its right-hand side is an expression,
+        // so the damage kinds of the property do not apply to the line as a whole
+        if entry.starts_with("line_2_statement") && text.contains('=') {
+            continue;
+        }
         match guard(|| f()) {
             Err(p) => return Err(mk(entry, "panic", format!("{entry} panics on malformed text `{}`: {p}", text.escape_debug()))),
             Ok(true) => return Err(mk(entry, "accepted", format!("{entry} accepts malformed text `{}` ({kind})", text.escape_debug()))),
